@@ -263,6 +263,59 @@ def run(ctx):
     res.discharged = discharged
     res.count("obligations", obligations, floor=24)
     res.trusted_base = ["qv/oracles/quil_spec_gates.py (transcribed from the Quil specification, Standard Gate Definitions)", "sympy", "qsyn extraction + the matrix interpreter in qv/props/c14.py", "ndarray's array!/eye/index-assignment semantics"]
+    # R5 (K4) permutation accumulation: in two_swap_helper and permutation_arbitrary every step multiplies the new factor on
+    #    the left of the accumulated permutation (`factor.dot(&perm)`), in every branch alike; the qubit map is updated by
+    #    the same steps, so a branch accumulating on the other side yields a matrix that disagrees with the map
+    from qv.engine import fn_expr_operand as _op, walk_expr as _wx, callee_path as _cp
+    nacc = 0
+    for hname, factor in (("two_swap_helper", "qubit_adjacent_lifted_gate"), ("permutation_arbitrary", "two_swap_helper")):
+        hs = [f_ for f_ in db.fns if f_.name == hname and f_.path.startswith("quil_rs::instruction::gate::")]
+        if len(hs) != 1:
+            res.missing_anchor(hname)
+            continue
+        h = hs[0]
+        dots = [(bb, t) for bb, t, c in h.calls() if c and c.get("name") == "dot"]
+        for k_, (bb, t) in enumerate(dots):
+            nacc += 1
+            recv, arg = _op(h, t["args"][0]), _op(h, t["args"][1])
+
+            def has_call(e, suffix):
+                out = []
+                _wx(e, lambda n: out.append(1) if n[0] == "call" and n[1] and n[1].endswith("::" + suffix) else None)
+                return bool(out)
+
+            recv_is_factor = has_call(recv, factor) and recv[0] != "phi"
+            arg_is_acc = arg[0] == "phi" or has_call(arg, "eye") or arg[0] == "cycle"
+            ok = recv_is_factor and arg_is_acc
+            key = "K4|permutation-accumulation|%s#%d" % (hname, k_)
+            res.site(key, True, {"receiver_is_new_factor": recv_is_factor, "argument_is_accumulator": arg_is_acc, "verdict": "ok" if ok else "VIOLATION"})
+            if not ok:
+                res.find(key, h.loc(t.get("sp")), "%s accumulates a permutation step on the right of the accumulated matrix (or not onto the accumulator) in one branch, while the qubit map is updated as for left multiplication" % hname, "CCNOT 0 1 3 in a 4-qubit space acts on the wrong qubits")
+    res.count("permutation_accumulation_steps", nacc, floor=3)
+    # R6 (K5) the angle handed to a parameterised gate's matrix function is the gate's (simplified) parameter itself
+    gmx = [f_ for f_ in db.fns if f_.path == "quil_rs::instruction::gate::gate_matrix"]
+    key = "K5|parameter-passed-unchanged"
+    verdict = "undecided: call of the table function not found"
+    if len(gmx) == 1:
+        g_ = gmx[0]
+        for bb, t, c in g_.calls():
+            if c and c.get("name") == "map" and len(t["args"]) == 2:
+                clo = _op(g_, t["args"][1])
+                if clo[0] == "closure" and clo[2]:
+                    for hh in db.by_path.get(clo[1], []):
+                        if any(c2 is None for b2, t2, c2 in hh.calls()):  # calls the fn pointer taken from the table
+                            cap = clo[2][0]
+                            ns = []
+                            _wx(cap, ns.append)
+                            arith = [n for n in ns if n[0] in ("bin", "un") or (n[0] == "call" and n[1] and n[1].rsplit("::", 1)[-1] not in ("into_simplified", "index", "clone", "deref"))]
+                            from_param = any(n[0] == "field" and n[2] == "parameters" for n in ns) and any(n[0] == "as" and n[2] == "Number" for n in ns)
+                            verdict = "ok" if from_param and not arith else "VIOLATION"
+                            detail_ = [str(n[:2])[:60] for n in arith][:3]
+    res.site(key, True, {"verdict": verdict})
+    if verdict == "VIOLATION":
+        res.find(key, gmx[0].loc(), "gate_matrix transforms the gate's parameter before handing it to the gate's matrix function (%s)" % detail_, "RX(2*pi) 0 comes back as +I instead of -I (half-angle gates have period 4*pi)")
+    elif verdict != "ok":
+        res.undecided.append(key + " " + verdict)
     res.explanation = "Table agreement by algebra: %d obligations (2 key sets + one per gate); each table entry is evaluated symbolically from the source and proven equal to the specification matrix. The lifting code is not decided." % obligations
     res.assumptions = ["HashMap::from keeps the last of duplicate keys (duplicates are reported)", "Complex64::cis(x) = exp(i x)"]
     return res
